@@ -239,6 +239,30 @@ def run(ctx):
                                      spec['datatype'], cell[4]),
                           nontrivial=N >= 2, distinct_key=core.digest(raw2),
                           sample={'fault': name, 'change': change, 'file': desc} if nfault == 3 and cid[1] % 5 == 0 else None)
+    # ---- large files (DATA of several MiB: buffered / chunked readers engage only here), cut inside DATA ---------------------
+    for cid, rng in ctx.cases([('bigcut', i) for i in range(2 if ctx.tier == 'quick' else 20)]):
+        kind = ['F', 'I', 'I-mixed', 'D'][cid[1] % 4]
+        N, D = int(rng.choice([70000, 120000])), 8
+        if kind in ('F', 'D'):
+            spec = zoo.float_spec(rng, n=N, d=D, dt=kind)
+        else:
+            spec = zoo.int_spec(rng, n=N, d=D)
+            if kind == 'I-mixed':
+                spec['widths'] = [16, 32, 16, 16, 32, 16, 16, 32]
+        raw, lay = fcsgen.build(spec)
+        with open(path, 'wb') as fh:
+            fh.write(raw)
+        o = core.attempt(FlowCal.io.FCSFile, path)
+        if not ctx.check(not o.raised, 'intact-file-refused', cid, exc=core.exc_str(o.exc) if o.raised else None, spec=dict(kind=kind, N=N)):
+            continue
+        intact_arr, intact_text = np.array(o.value.data), dict(o.value.text)
+        span = lay['data_end'] - lay['data_begin']
+        for frac in (0.999, 0.75, 0.4, 0.0001):
+            cut = lay['data_begin'] + int(span * frac)
+            os.truncate(path, cut)
+            for where, oo in load(FlowCal, path, True):
+                judge(ctx, cid, where, oo, intact_arr, intact_text, False, ('truncate-big', frac), dict(kind=kind, N=N))
+            ctx.case_done(class_key=('truncate-big', kind), nontrivial=True, distinct_key=core.digest(cid, frac))
     # ---- a second data set appended to the file ($NEXTDATA) ----------------------------------------------------------
     # Whatever the position of an open handle, and wherever the file is cut inside the SECOND data set, a load returns one
     # data set's events together with that same data set's keywords (the first one for this reader), or raises: never the
